@@ -382,6 +382,28 @@ theorem print_f_iso_shape_lawful {rnd : Rounding} (L : Lawful rnd) (S : Sharp L)
   printF_shape_fe L S pw N fuel neg x nanNeg width precision ops withExp hx h0 hhi hlo hfuel (by omega) (by omega) hp0 hp1
 example : Sharp lawful64 := sharp64
 
+/-- **print_f_guard_never_truncates_b64** (audit item 4, `%.340f` of 1e308 and everything else) — for EVERY finite
+binary64 argument and EVERY precision 0..INT_MAX (in particular ≤ PRINT_F_FRAC_MAX) of %f / %e: the buffer that
+`fillBuf` returns is exactly what the UNGUARDED integer-digit loop (the original loop, without
+`&& (str > &buff[0])`) produces after the fraction digits and the point — the guard never fires, the integer part
+is printed completely.  The constants suffice because (a) with no generated fraction digit at most 2 bytes are in
+use and an integer part below 2^1024 + 1 < 8^342 takes at most 342 passes (each pass divides by more than 8):
+344 ≤ 352; (b) if fraction digits were generated the argument is a non-integer double, hence below 2^52, and
+either it is below 1 (one integer digit, ≤ 343 bytes) or its fraction is at least 2^-52, so the fraction loop
+stops after at most 35 passes (each multiplies by at least 8; values ≥ 2^52 are integers): 37 + 18 bytes.
+Over exact rationals this is FALSE (the audit's probe 1e308+7 with 340 fraction digits): `Sharp` is needed. -/
+theorem print_f_guard_never_truncates_b64 (fuel : ℕ) (hfuel : 358 ≤ fuel) (x : ℚ) (hx : IsB64 x)
+    (precision : ℤ) (hp0 : 0 ≤ precision) (hp1 : precision ≤ 2147483647) (ops : Ops) (withExp : Bool) :
+    ∃ (d : Digits FV) (bf : Buf) (dotfrac : List Char),
+      digitsOf b64A cfgNow fuel (.fin false x) precision ops withExp false = .ok d ∧
+      fillBuf b64A cfgNow ops false d = .ok bf ∧
+      intLoop b64A { cfgNow with repaired := false } ops.upper (cfgNow.size + 1) d.ip
+        { post := bf.post, sep := bf.sep, body := dotfrac } = .ok bf := by
+  rw [b64A_eq]
+  obtain ⟨r1, r2⟩ := b64_range hx
+  exact printF_int_unguarded lawful64 sharp64 powHost 358 fuel x precision ops withExp hx.2 hx.1 r1 r2 hfuel
+    (by norm_num) (by norm_num) hp0 hp1
+
 /-- **finding C13-g-style-carry against the shape predicate**: the text the model prints for `%g` of 999999.5
 (`print_f_g_style_carry_witness`) is REJECTED by `isoShape` (style f with X = 6 = P), the ISO text is accepted.
 The shape of `%g` is not proved: outside this class it is carried by the harness (the same predicate, in C++). -/
